@@ -492,6 +492,7 @@ def run_instance_sym(h, params, qtimeout, want_smt2=True):
                 records=all_records, notes=notes, assumptions=assumption_notes,
                 samples=samples, twin_ok=twin_ok, reduced_twins=reduced_twins, trivial=trivial, normal_form=nf_total, wall=round(time.time() - t0, 3),
                 solver_s=round(sum(r.get("secs", 0) for r in all_records), 3),
+                max_query_s=round(max([r.get("secs", 0) for r in all_records] or [0]), 3),
                 ninputs=len(inputs))
 
 
@@ -622,7 +623,7 @@ def run_property(pid, tier, replay_path=None, only=None, nproc=None):
     hs = [h for (p, n), h in HARNESSES.items() if p == pid and (only is None or n in only)]
     if replay_path:
         return do_replay_file(pid, replay_path)
-    qtimeout = 20000 if tier == "quick" else 120000
+    qtimeout = 40000 if tier == "quick" else 120000
     wall = 300 if tier == "quick" else 1500
     tasks = []
     for h in hs:
@@ -651,7 +652,8 @@ def run_property(pid, tier, replay_path=None, only=None, nproc=None):
         total_paths += res.get("paths", 0)
         solver_s += res.get("solver_s", 0.0)
         hsum = dict(harness=hname, params=params, status=res.get("status"), paths=res.get("paths"),
-                    wall_s=res.get("wall"), obligations=0, unsat=0, sat=0, unknown=0)
+                    wall_s=res.get("wall"), max_query_s=res.get("max_query_s"),
+                    obligations=0, unsat=0, sat=0, unknown=0)
         if res.get("status") != "ok":
             inconclusive.append("%s%s: %s %s" % (hname, params, res.get("status"),
                                                   (res.get("error") or "")[-600:]))
